@@ -24,6 +24,7 @@ type c19LineCase struct {
 	Pipeline bool   `json:"pipeline"` // prefix, probe and follow-up in one go (else prefix lock-step first)
 	Cut      int    `json:"cut"`      // >0: the probe line is split into two segments at this offset
 	BareLF   bool   `json:"bare_lf,omitempty"`
+	Debug    bool   `json:"debug,omitempty"` // the server has a Debug writer attached
 }
 
 func c19Probe(c c19LineCase) []byte {
@@ -52,7 +53,7 @@ func c19Probe(c c19LineCase) []byte {
 }
 
 func c19LineRun(c c19LineCase) Verdict {
-	cfg := harness.Config{MaxLineLength: c.L}
+	cfg := harness.Config{MaxLineLength: c.L, Debug: c.Debug}
 	script := harness.Script{}
 	if c.Position == "after-failed-chunk" {
 		script.Data = []harness.DataPlan{{Read: harness.ReadPlan{Limit: 0}, Result: harness.Decision{Kind: "smtp", Code: 452, Enh: [3]int{4, 3, 1}, Msg: "no space"}}}
@@ -212,6 +213,7 @@ func c19GenLine(t *rapid.T) c19LineCase {
 		c.Cut = rapid.IntRange(1, c.Total-1).Draw(t, "cut")
 	}
 	c.BareLF = rapid.IntRange(0, 5).Draw(t, "barelf") == 0
+	c.Debug = rapid.IntRange(0, 3).Draw(t, "debug") == 0
 	return c
 }
 
@@ -222,6 +224,8 @@ type c19EndlessCase struct {
 	Position string `json:"position"` // first greeted between-chunks after-last
 	Seg      int    `json:"seg"`      // segment size
 	Octet    byte   `json:"octet"`
+	// Debug: the server has a Debug writer attached (a second reader path)
+	Debug bool `json:"debug,omitempty"`
 }
 
 func c19EndlessRun(c c19EndlessCase) Verdict {
@@ -229,7 +233,7 @@ func c19EndlessRun(c c19EndlessCase) Verdict {
 	if c.Position == "after-failed-chunk" {
 		escript.Data = []harness.DataPlan{{Read: harness.ReadPlan{Limit: 0}, Result: harness.Decision{Kind: "smtp", Code: 452, Enh: [3]int{4, 3, 1}, Msg: "no space"}}}
 	}
-	r := harness.NewRig(harness.Config{MaxLineLength: c.L}, escript)
+	r := harness.NewRig(harness.Config{MaxLineLength: c.L, Debug: c.Debug}, escript)
 	w, _ := r.Dial()
 	if st := w.WaitQuiet(); st != harness.QIdle {
 		w.Finish()
@@ -272,6 +276,9 @@ func c19EndlessRun(c c19EndlessCase) Verdict {
 		return finishFail(w)
 	}
 	v := Verdict{NonTrivial: true, Classes: []string{"endless_" + c.Position}}
+	if c.Debug {
+		v.Classes = append(v.Classes, "debug_writer_attached")
+	}
 	if p := r.Log.Panicked(); p != "" {
 		return failf("panic", "server logged a panic: %s", p)
 	}
@@ -553,7 +560,7 @@ func init() {
 
 func TestC19(t *testing.T) {
 	registerAll()
-	st.Rule = "cases = probe lines of total length L-3..L+4, 2L, 3L at five conversation positions, lock-step and pipelined, whole or in two segments; endless (1 MiB, no LF) lines with octets consumed measured on the in-memory network; all strings up to the length bound over {NUL,CR,LF,SP,'A','a',':','<'} as raw input; mixes of valid, state-refused and malformed commands around the error threshold, optionally with a STARTTLS upgrade in between; random blobs of command fragments and raw octets; non-trivial = probe within 3 of L OR input with NUL/CR OR >= 3 errors OR endless line; distinct = hash of the whole case"
+	st.Rule = "cases = probe lines of total length L-3..L+4, 2L, 3L at five conversation positions, lock-step and pipelined, whole or in two segments; endless (1 MiB, no LF) lines with octets consumed measured on the in-memory network, with and without a Debug writer attached to the server; all strings up to the length bound over {NUL,CR,LF,SP,'A','a',':','<'} as raw input; mixes of valid, state-refused and malformed commands around the error threshold, optionally with a STARTTLS upgrade in between; random blobs of command fragments and raw octets; non-trivial = probe within 3 of L OR input with NUL/CR OR >= 3 errors OR endless line; distinct = hash of the whole case"
 	if !regress(t, "C19") {
 		return
 	}
@@ -567,6 +574,9 @@ func TestC19(t *testing.T) {
 					continue
 				}
 				if !c19Endless.one(t, c19EndlessCase{L: l, Position: pos, Seg: seg, Octet: 'a'}) {
+					return
+				}
+				if !c19Endless.one(t, c19EndlessCase{L: l, Position: pos, Seg: seg, Octet: 'a', Debug: true}) {
 					return
 				}
 			}
